@@ -4,6 +4,7 @@ CONSTANTS
   RSizes = {40}
   TsigLens = {74}
   Limits = {57, 125, 200}
+  Bufs = {100, 140}
   Variant = "impl"
 SPECIFICATION Spec
 INVARIANTS Ordered ReservedKept FinishedFits ReservedUsedExactly
